@@ -2,9 +2,9 @@
 carrying the same fixed values (C05) and with the model's restrict_rows (C15)."""
 import pickle
 from common import sx, run_dsgm, rng_for, is_model_error
-import dsgcase
+import dsgcase, procdrive
 # known-finding classes whose mechanism lies in the complete encoder: the fast encoder's decode is still compared with its model
-FAST_MODEL_COVERS = {'K13'}, procdrive
+FAST_MODEL_COVERS = {'K13'}
 
 
 def _rows(gp, E_all, fixed):
